@@ -367,6 +367,9 @@ func (vc *VC) mapLookup(st *State, m string, mt *types.Map, key Val) (val string
 	hv := vc.heapGet(st, vl, ArrSort(SRef, ArrSort(ks, vs)))
 	ok = sel(sel(hd, m), k)
 	val = ite(ok, sel(sel(hv, m), k), vc.zeroTerm(mt.Elem(), vs))
+	if vs == SRef && vc.prog.mapValsNonNil[typeKey(mt)] && !strings.Contains(k, "?") {
+		vc.assume(st, implies(ok, not(eq(sel(sel(hv, m), k), "nil"))))
+	}
 	return
 }
 
@@ -1110,8 +1113,26 @@ func (vc *VC) callFuncValue(st *State, call *ast.CallExpr) Val {
 	if se, ok := fun.(*ast.SelectorExpr); ok {
 		if selInfo, ok := vc.info.Selections[se]; ok && selInfo.Kind() == types.FieldVal {
 			owner := ownerName(selInfo.Recv())
+			promoted := len(selInfo.Index()) > 1
+			if promoted {
+				// promoted field: the contract belongs to the embedded type that declares the field
+				t := selInfo.Recv()
+				idx := selInfo.Index()
+				for _, fi := range idx[:len(idx)-1] {
+					if pt, ok := t.Underlying().(*types.Pointer); ok {
+						t = pt.Elem()
+					}
+					t = t.Underlying().(*types.Struct).Field(fi).Type()
+				}
+				owner = ownerName(t)
+			}
 			if si, ok := vc.prog.fspec[owner+"."+se.Sel.Name]; ok {
-				recv := vc.eval(st, se.X)
+				var recv Val
+				if promoted {
+					recv = vc.evalEmbeddedPath(st, se.X, selInfo)
+				} else {
+					recv = vc.eval(st, se.X)
+				}
 				args := vc.evalArgs(st, call)
 				return vc.callModular(st, nil, si, recv, args, call.Pos(), owner+"."+se.Sel.Name)
 			}
@@ -1170,6 +1191,21 @@ func (vc *VC) externalCall(st *State, fn *types.Func, recv Val, args []Val, call
 		if recv != nil {
 			// ext specs take the receiver as first parameter
 			args = append([]Val{recv}, args...)
+		}
+		// extra contract parameters denote local variables of the calling function (bound by name)
+		if _, ps, _ := specParamObjs(si); len(ps) > len(args) && vc.fn != nil {
+			scope := vc.fn.Pkg.Types.Scope().Innermost(call.Pos())
+			for i := len(args); i < len(ps); i++ {
+				var found types.Object
+				if scope != nil {
+					_, found = scope.LookupParent(ps[i].Name(), call.Pos())
+				}
+				v, ok := st.vars[found]
+				if found == nil || !ok {
+					panic(unsupported("ext contract %s: no local variable %s at the call site", key, ps[i].Name()))
+				}
+				args = append(args, v)
+			}
 		}
 		return vc.callModular(st, nil, si, nil, args, call.Pos(), "ext."+key)
 	}
@@ -1468,4 +1504,25 @@ func (vc *VC) quietHeaps(st *State, si *SpecInfo, recv Val, args []Val, onlyLite
 		}
 	}
 	return out
+}
+
+// evalEmbeddedPath evaluates x.<embedded...> up to (not including) the last selected field.
+func (vc *VC) evalEmbeddedPath(st *State, X ast.Expr, selInfo *types.Selection) Val {
+	t := selInfo.Recv()
+	v := vc.eval(st, X)
+	idx := selInfo.Index()
+	for _, fi := range idx[:len(idx)-1] {
+		if pt, ok := t.Underlying().(*types.Pointer); ok {
+			s := v.(*Scalar)
+			p := place{kind: pHeap, ref: s.T, owner: typeKey(pt.Elem()), typ: pt.Elem()}
+			f := pt.Elem().Underlying().(*types.Struct).Field(fi)
+			v = vc.loadPlace(st, vc.fieldOf(st, p, f))
+			t = f.Type()
+		} else {
+			f := t.Underlying().(*types.Struct).Field(fi)
+			v = v.(*StructV).F[f.Name()]
+			t = f.Type()
+		}
+	}
+	return v
 }
